@@ -13,11 +13,12 @@ import (
 
 // cli bundles one `package main` (v2/jd or the top-level binary).
 type cli struct {
-	w    *World
-	pkg  *ssa.Package
-	tag  string // "v2jd" | "top"
-	fns  []*ssa.Function
-	libs map[*types.Package]bool // library packages (v2, lib)
+	flagNames map[*ssa.Global]string // package-level flag variable -> command-line flag name
+	w         *World
+	pkg       *ssa.Package
+	tag       string // "v2jd" | "top"
+	fns       []*ssa.Function
+	libs      map[*types.Package]bool // library packages (v2, lib)
 }
 
 func newCLI(w *World, path, tag string) *cli {
@@ -35,6 +36,31 @@ func newCLI(w *World, path, tag string) *cli {
 	}
 	if len(c.fns) < 10 {
 		infra("%s: only %d functions in package main", tag, len(c.fns))
+	}
+	// flags are identified by the name they are registered under, not by the
+	// Go identifier that holds them
+	c.flagNames = map[*ssa.Global]string{}
+	if init := c.pkg.Func("init"); init != nil {
+		allInstrs(init, func(in ssa.Instruction) {
+			st, ok := in.(*ssa.Store)
+			if !ok {
+				return
+			}
+			g, ok := st.Addr.(*ssa.Global)
+			if !ok {
+				return
+			}
+			call, ok := st.Val.(*ssa.Call)
+			if !ok || !strings.HasPrefix(calleeFullName(call), "flag.") || len(call.Call.Args) == 0 {
+				return
+			}
+			if name, ok := constString(call.Call.Args[0]); ok {
+				c.flagNames[g] = name
+			}
+		})
+	}
+	if len(c.flagNames) < 8 {
+		infra("%s: only %d command-line flags found in package main's initialisation", tag, len(c.flagNames))
 	}
 	return c
 }
@@ -54,7 +80,7 @@ func (c *cli) flagOf(v ssa.Value) string {
 	if !ok || g.Pkg != c.pkg {
 		return ""
 	}
-	return g.Name()
+	return c.flagNames[g]
 }
 
 const otherValue = "\x00other"
@@ -542,7 +568,7 @@ func (c *cli) ruleOutput(r *Report) {
 			if !ok || bo.Op != token.EQL {
 				continue
 			}
-			if c.flagOf(bo.X) == "output" {
+			if c.flagOf(bo.X) == "o" {
 				if s, ok := constString(bo.Y); ok && s == "" {
 					branch = b
 				}
@@ -585,7 +611,7 @@ func (c *cli) ruleOutput(r *Report) {
 				switch calleeFullName(ci) {
 				case "os.OpenFile", "os.Create":
 					args := ci.Common().Args
-					if c.flagOf(args[0]) == "output" {
+					if c.flagOf(args[0]) == "o" {
 						trunc := calleeFullName(ci) == "os.Create"
 						if len(args) > 1 {
 							if fl, ok := constInt(args[1]); ok && fl&0x200 != 0 && fl&0x40 != 0 {
@@ -600,7 +626,7 @@ func (c *cli) ruleOutput(r *Report) {
 					nWrite++
 					if b == fE.To() {
 						args := ci.Common().Args
-						if c.flagOf(args[0]) == "output" {
+						if c.flagOf(args[0]) == "o" {
 							if cv, ok := args[1].(*ssa.Convert); ok {
 								written = strip(cv.X)
 							}
@@ -786,10 +812,28 @@ func (c *cli) ruleHaveDiff(r *Report) {
 				}
 				// computed directly: must be the comparison itself
 				if bo, ok := v.(*ssa.BinOp); ok && bo.Op == token.NEQ {
-					if rn := c.renderCallName(bo.X); rn != "" {
-						if k, isK := strip(bo.Y).(*ssa.Const); isK && k.Value != nil && k.Value.ExactString() == sentinelOf[rn] {
-							return true, ""
+					// rendered != sentinel, possibly with both sides chosen per
+					// format in the same arms (phis of one block, edge by edge)
+					var paired func(x, y ssa.Value, depth int) bool
+					paired = func(x, y ssa.Value, depth int) bool {
+						if rn := c.renderCallName(x); rn != "" {
+							k, isK := strip(y).(*ssa.Const)
+							return isK && k.Value != nil && k.Value.ExactString() == sentinelOf[rn]
 						}
+						px, okx := x.(*ssa.Phi)
+						py, oky := y.(*ssa.Phi)
+						if !okx || !oky || px.Block() != py.Block() || len(px.Edges) != len(py.Edges) || depth > 3 {
+							return false
+						}
+						for i := range px.Edges {
+							if !paired(px.Edges[i], py.Edges[i], depth+1) {
+								return false
+							}
+						}
+						return true
+					}
+					if paired(bo.X, bo.Y, 0) || paired(bo.Y, bo.X, 0) {
+						return true, ""
 					}
 				}
 				return false, "the boolean is computed from " + valueName(v) + ", not from comparing the rendered output with the empty rendering"
@@ -872,7 +916,7 @@ func (c *cli) ruleFlags(r *Report) {
 	const rule = "R-CLI/F"
 	expected := map[string][]string{
 		"SET": {"set"}, "MULTISET": {"mset"}, "SetKeys": {"setkeys"}, "Setkeys": {"setkeys"},
-		"MERGE": {"format"}, "Precision": {}, "SetPrecision": {},
+		"MERGE": {"f"}, "Precision": {}, "SetPrecision": {},
 	}
 	n := 0
 	for _, fn := range c.fns {
@@ -937,7 +981,7 @@ func (c *cli) ruleFlags(r *Report) {
 			if opt == "MERGE" {
 				// the format test must compare with "merge"
 				okc := false
-				for _, k := range c.flagConsts(fn, "format") {
+				for _, k := range c.flagConsts(fn, "f") {
 					if k == `"merge"` {
 						okc = true
 					}
@@ -1178,43 +1222,97 @@ func (c *cli) ruleInputs(r *Report) {
 		fn  *ssa.Function
 		arg int64
 	}
+	// srcCtx: the function a value lives in, the blocks feasible there under
+	// the mode of the call being examined, and the values known to equal a
+	// constant (the mode variable, bound through parameters)
+	type srcCtx struct {
+		feasible map[*ssa.BasicBlock]bool
+		bind     map[ssa.Value]string
+	}
 	var feasible map[*ssa.BasicBlock]bool
-	var sources func(v ssa.Value, seen map[ssa.Value]bool, out map[string]bool)
-	sources = func(v ssa.Value, seen map[ssa.Value]bool, out map[string]bool) {
+	var bindMain map[ssa.Value]string
+	// argIndex: v is the k-th positional command-line argument: flag.Arg(k) or flag.Args()[k]
+	argIndex := func(v ssa.Value) string {
+		v = strip(v)
+		if ac, ok := v.(*ssa.Call); ok && calleeFullName(ac) == "flag.Arg" {
+			if k, ok := constInt(ac.Call.Args[0]); ok {
+				return fmt.Sprint(k)
+			}
+		}
+		if u, ok := v.(*ssa.UnOp); ok && u.Op == token.MUL {
+			if ia, ok := u.X.(*ssa.IndexAddr); ok {
+				if ac, ok := strip(ia.X).(*ssa.Call); ok && calleeFullName(ac) == "flag.Args" {
+					if k, ok := constInt(ia.Index); ok {
+						return fmt.Sprint(k)
+					}
+				}
+			}
+		}
+		return "?"
+	}
+	var sourcesIn func(v ssa.Value, ctx srcCtx, seen map[ssa.Value]bool, out map[string]bool, depth int)
+	sourcesIn = func(v ssa.Value, ctx srcCtx, seen map[ssa.Value]bool, out map[string]bool, depth int) {
 		v = strip(v)
 		if seen[v] {
 			return
 		}
 		seen[v] = true
+		// a result of a function of package main other than the two readers:
+		// look at what it returns, under the mode it was called with
+		through := func(call *ssa.Call, idx int) bool {
+			sf := staticCallee(call)
+			if sf == nil || sf == readStdin || sf == readFile || fnPkg(sf) != c.pkg.Pkg || sf.Blocks == nil || depth > 3 || len(call.Call.Args) != len(sf.Params) {
+				return false
+			}
+			bind := map[ssa.Value]string{}
+			for i, a := range call.Call.Args {
+				if k, ok := ctx.bind[strip(a)]; ok {
+					bind[sf.Params[i]] = k
+				} else if kc, ok := strip(a).(*ssa.Const); ok && kc.Value != nil {
+					bind[sf.Params[i]] = kc.Value.ExactString()
+				}
+			}
+			cctx := srcCtx{feasible: c.reachUnderV(sf, nil, bind), bind: bind}
+			for _, ret := range returnsOf(sf) {
+				if !cctx.feasible[ret.Block()] || idx >= len(ret.Results) {
+					continue
+				}
+				sourcesIn(ret.Results[idx], cctx, map[ssa.Value]bool{}, out, depth+1)
+			}
+			return true
+		}
 		switch x := v.(type) {
 		case *ssa.Phi:
 			for i, e := range x.Edges {
-				if feasible != nil && !feasible[x.Block().Preds[i]] {
+				if ctx.feasible != nil && !ctx.feasible[x.Block().Preds[i]] {
 					continue // this assignment belongs to another mode
 				}
-				sources(e, seen, out)
+				sourcesIn(e, ctx, seen, out, depth)
 			}
 		case *ssa.Const:
 			out["const"] = true
+		case *ssa.Extract:
+			if call, ok := x.Tuple.(*ssa.Call); ok && through(call, x.Index) {
+				return
+			}
+			out["other:"+valueName(v)] = true
 		case *ssa.Call:
 			sf := staticCallee(x)
 			switch {
 			case sf == readStdin:
 				out["stdin"] = true
 			case sf == readFile:
-				a := "?"
-				if ac, ok := x.Call.Args[0].(*ssa.Call); ok && calleeFullName(ac) == "flag.Arg" {
-					if k, ok := constInt(ac.Call.Args[0]); ok {
-						a = fmt.Sprint(k)
-					}
-				}
-				out["file"+a] = true
+				out["file"+argIndex(x.Call.Args[0])] = true
+			case through(x, 0):
 			default:
 				out["other:"+calleeFullName(x)] = true
 			}
 		default:
 			out["other:"+valueName(v)] = true
 		}
+	}
+	sources := func(v ssa.Value, seen map[ssa.Value]bool, out map[string]bool) {
+		sourcesIn(v, srcCtx{feasible: feasible, bind: bindMain}, seen, out, 0)
 	}
 	allInstrs(mainFn, func(in ssa.Instruction) {
 		call, ok := in.(*ssa.Call)
@@ -1226,7 +1324,7 @@ func (c *cli) ruleInputs(r *Report) {
 			return
 		}
 		// the local mode variable: the call sits on the true edge of `mode == K`
-		feasible = nil
+		feasible, bindMain = nil, nil
 		for _, bb := range mainFn.Blocks {
 			cond, tE, _, okb := branchEdges(bb)
 			if !okb {
@@ -1237,11 +1335,15 @@ func (c *cli) ruleInputs(r *Report) {
 				continue
 			}
 			k, isK := strip(bo.Y).(*ssa.Const)
-			if _, isPhi := strip(bo.X).(*ssa.Phi); !isPhi || !isK || k.Value == nil || c.flagOf(bo.X) != "" {
+			modeV := strip(bo.X)
+			_, isPhi := modeV.(*ssa.Phi)
+			_, isCall := modeV.(*ssa.Call)
+			if !(isPhi || isCall) || !isK || k.Value == nil || c.flagOf(bo.X) != "" {
 				continue
 			}
 			if edgeDominates(tE, call.Block()) {
-				feasible = c.reachUnderV(mainFn, nil, map[ssa.Value]string{strip(bo.X): k.Value.ExactString()})
+				bindMain = map[ssa.Value]string{modeV: k.Value.ExactString()}
+				feasible = c.reachUnderV(mainFn, nil, bindMain)
 			}
 		}
 		strArgs := 0
@@ -1300,8 +1402,15 @@ func (c *cli) ruleModes(r *Report) {
 	for _, fn := range c.fns {
 		all := c.libCalls(fn, reachFrom(fn.Blocks[0], nil))
 		pos := c.w.Pos(fn.Pos())
-		usesFormat := len(c.flagConsts(fn, "format")) > 0 && fn.Signature.Results().Len() != 2
-		usesTrans := len(c.flagConsts(fn, "translate")) > 0 && fn.Name() != "main"
+		usesFormat := len(c.flagConsts(fn, "f")) > 0 && fn.Signature.Results().Len() != 2
+		// a translation routine compares -t with at least one documented name
+		// (main and mode selection only test it against "")
+		usesTrans := false
+		for _, k := range c.flagConsts(fn, "t") {
+			if _, ok := transTable[k]; ok {
+				usesTrans = true
+			}
+		}
 		isPatchRoutine := len(only(all, readers)) > 0 && usesFormat
 		isDiffR := isDiffRoutine(fn)
 		switch {
@@ -1312,7 +1421,7 @@ func (c *cli) ruleModes(r *Report) {
 			if isDiffR {
 				fam, col = rends, 1
 			}
-			consts := c.flagConsts(fn, "format")
+			consts := c.flagConsts(fn, "f")
 			for k, row := range fmtTable {
 				found := false
 				for _, kk := range consts {
@@ -1325,17 +1434,17 @@ func (c *cli) ruleModes(r *Report) {
 					r.Bad(rule, key, pos, "documented format value "+k+" is not recognised")
 					continue
 				}
-				calls := c.libCalls(fn, c.reachUnder(fn, map[string]string{"format": k}))
+				calls := c.libCalls(fn, c.reachUnder(fn, map[string]string{"f": k}))
 				got := only(calls, fam)
 				r.Check(len(got) == 1 && got[0] == row[col], rule, key, pos,
 					fmt.Sprintf("-f %s selects %s", k, row[col]), fmt.Sprintf("-f %s reaches %v, the documented contract says %s", k, got, row[col]))
 			}
-			calls := c.libCalls(fn, c.reachUnder(fn, map[string]string{"format": otherValue}))
+			calls := c.libCalls(fn, c.reachUnder(fn, map[string]string{"f": otherValue}))
 			got := only(calls, fam)
 			okOther := len(got) == 0
 			if isPatchRoutine && !isDiffR {
 				// unknown format must not go on to patch
-				okOther = okOther && c.exitsBefore(fn, map[string]string{"format": otherValue})
+				okOther = okOther && c.exitsBefore(fn, map[string]string{"f": otherValue})
 			}
 			r.Check(okOther, rule, c.key(fn, "format=other"), pos, "an unknown -f value reaches no reader/renderer and is an error", fmt.Sprintf("an unknown -f value still reaches %v or is not an error", got))
 			for _, k := range consts {
@@ -1345,7 +1454,7 @@ func (c *cli) ruleModes(r *Report) {
 			}
 		case usesTrans:
 			r.Fn(fnName(fn))
-			consts := c.flagConsts(fn, "translate")
+			consts := c.flagConsts(fn, "t")
 			fam := append(append(append(append([]string{}, readers...), rends...), docReaders...), docRends...)
 			for k, row := range transTable {
 				key := c.key(fn, "translate="+k)
@@ -1359,7 +1468,7 @@ func (c *cli) ruleModes(r *Report) {
 					r.Bad(rule, key, pos, "documented translation "+k+" is not recognised")
 					continue
 				}
-				calls := c.libCalls(fn, c.reachUnder(fn, map[string]string{"translate": k}))
+				calls := c.libCalls(fn, c.reachUnder(fn, map[string]string{"t": k}))
 				got := only(calls, fam)
 				want := []string{row[0], row[1]}
 				sort.Strings(got)
@@ -1367,9 +1476,9 @@ func (c *cli) ruleModes(r *Report) {
 				r.Check(strings.Join(got, ",") == strings.Join(want, ","), rule, key, pos,
 					fmt.Sprintf("-t %s reads with %s and renders with %s", k, row[0], row[1]), fmt.Sprintf("-t %s reaches %v, the documented contract says %v", k, got, want))
 			}
-			calls := c.libCalls(fn, c.reachUnder(fn, map[string]string{"translate": otherValue}))
+			calls := c.libCalls(fn, c.reachUnder(fn, map[string]string{"t": otherValue}))
 			got := only(calls, fam)
-			r.Check(len(got) == 0 && c.exitsBefore(fn, map[string]string{"translate": otherValue}), rule, c.key(fn, "translate=other"), pos,
+			r.Check(len(got) == 0 && c.exitsBefore(fn, map[string]string{"t": otherValue}), rule, c.key(fn, "translate=other"), pos,
 				"an unknown -t value reaches no reader/renderer and is an error", fmt.Sprintf("an unknown -t value reaches %v or is not an error", got))
 			for _, k := range consts {
 				if _, ok := transTable[k]; !ok {
@@ -1510,5 +1619,183 @@ func (c *cli) ruleNoPanic(r *Report) {
 	}
 	if n == 0 {
 		r.Ok(rule, c.tag+":no-panic-no-fatal", "-", fmt.Sprintf("no panic, log.Fatal* or log.Panic* in the %d functions of package main", len(c.fns)))
+	}
+}
+
+// ------------------------------------------------------------------ V: -v2 selects the library
+
+// libPkgOf: the library package a call goes into (nil: not a library call).
+func (c *cli) libPkgOf(ci ssa.CallInstruction) *types.Package {
+	com := ci.Common()
+	if com.IsInvoke() {
+		if com.Method.Pkg() != nil && c.libs[com.Method.Pkg()] {
+			return com.Method.Pkg()
+		}
+		if n := namedOf(com.Value.Type()); n != nil && n.Obj().Pkg() != nil && c.libs[n.Obj().Pkg()] {
+			return n.Obj().Pkg()
+		}
+		return nil
+	}
+	if sf := staticCallee(ci); sf != nil {
+		if p := fnPkg(sf); p != nil && c.libs[p] {
+			return p
+		}
+	}
+	return nil
+}
+
+// ruleLibrarySelect (top-level binary only): with -v2=false every library
+// call the program can reach goes into package lib, with -v2 (the default)
+// into package v2 — whatever the mode. The git diff driver has no v1
+// implementation and is evaluated separately: it must still be handed the
+// options parsed from the flags.
+func (c *cli) ruleLibrarySelect(r *Report) {
+	const rule = "R-CLI/V"
+	if len(c.libs) < 2 || c.tag != "top" {
+		return
+	}
+	mainFn := c.pkg.Func("main")
+	hasFlag := func(name string) bool {
+		for _, n := range c.flagNames {
+			if n == name {
+				return true
+			}
+		}
+		return false
+	}
+	if mainFn == nil || !hasFlag("v2") || !hasFlag("git-diff-driver") {
+		r.Bad(rule, c.tag+":flags", "-", "the -v2 / -git-diff-driver flags are not registered")
+		return
+	}
+	r.Fn(fnName(mainFn))
+	v2p, libp := c.w.Pkg(pathV2).Pkg, c.w.Pkg(pathLib).Pkg
+	type hit struct {
+		fn   *ssa.Function
+		name string
+		pos  token.Pos
+	}
+	walk := func(assign map[string]string, wrong *types.Package) (bad []hit, right int) {
+		seen := map[*ssa.Function]bool{mainFn: true}
+		work := []*ssa.Function{mainFn}
+		for len(work) > 0 {
+			fn := work[0]
+			work = work[1:]
+			withClosures(fn, func(f *ssa.Function) {
+				reach := c.reachUnder(f, assign)
+				for _, b := range f.Blocks {
+					if !reach[b] {
+						continue
+					}
+					for _, in := range b.Instrs {
+						ci, ok := in.(ssa.CallInstruction)
+						if !ok {
+							continue
+						}
+						if p := c.libPkgOf(ci); p != nil {
+							if p == wrong {
+								bad = append(bad, hit{f, c.libCallee(ci), ci.Pos()})
+							} else {
+								right++
+							}
+							continue
+						}
+						if sf := staticCallee(ci); sf != nil && fnPkg(sf) == c.pkg.Pkg && sf.Blocks != nil && sf.Parent() == nil && !seen[sf] {
+							seen[sf] = true
+							work = append(work, sf)
+						}
+					}
+				}
+			})
+		}
+		return
+	}
+	for _, val := range []string{"true", "false"} {
+		wrong, wname, rname := libp, "lib (v1)", "v2"
+		if val == "false" {
+			wrong, wname, rname = v2p, "v2", "lib (v1)"
+		}
+		bad, right := walk(map[string]string{"v2": val, "git-diff-driver": "false"}, wrong)
+		key := c.key(mainFn, "-v2="+val+":library")
+		pos := c.w.Pos(mainFn.Pos())
+		switch {
+		case len(bad) > 0:
+			sort.Slice(bad, func(i, j int) bool { return bad[i].pos < bad[j].pos })
+			r.Bad(rule, key, c.w.Pos(bad[0].pos), fmt.Sprintf("with -v2=%s the program reaches %s.%s in %s (and %d more calls into package %s): the output is not what package %s renders", val, wname, bad[0].name, fnName(bad[0].fn), len(bad)-1, wname, rname))
+		case right < 10:
+			r.Bad(rule, key, pos, fmt.Sprintf("with -v2=%s only %d calls into package %s are reachable", val, right, rname))
+		default:
+			r.Ok(rule, key, pos, fmt.Sprintf("with -v2=%s every reachable library call (%d) goes into package %s", val, right, rname))
+		}
+	}
+	// option slices handed on from main are never the zero value on a feasible path
+	for _, v := range []string{"true", "false"} {
+		for _, g := range []string{"true", "false"} {
+			assign := map[string]string{"v2": v, "git-diff-driver": g}
+			reach := c.reachUnder(mainFn, assign)
+			for _, b := range mainFn.Blocks {
+				if !reach[b] {
+					continue
+				}
+				for _, in := range b.Instrs {
+					call, ok := in.(*ssa.Call)
+					if !ok {
+						continue
+					}
+					sf := staticCallee(call)
+					if sf == nil || fnPkg(sf) != c.pkg.Pkg {
+						continue
+					}
+					for i, a := range call.Call.Args {
+						sl, ok := a.Type().Underlying().(*types.Slice)
+						if !ok {
+							continue
+						}
+						n := namedOf(sl.Elem())
+						if n == nil || n.Obj().Pkg() == nil || !c.libs[n.Obj().Pkg()] {
+							continue
+						}
+						zero := false
+						var srcs func(x ssa.Value, seen map[ssa.Value]bool)
+						srcs = func(x ssa.Value, seen map[ssa.Value]bool) {
+							x = strip(x)
+							if seen[x] {
+								return
+							}
+							seen[x] = true
+							switch y := x.(type) {
+							case *ssa.Phi:
+								for j, e := range y.Edges {
+									pred := y.Block().Preds[j]
+									if !reach[pred] {
+										continue
+									}
+									if iff, isIf := pred.Instrs[len(pred.Instrs)-1].(*ssa.If); isIf {
+										if cv, known := c.condUnder(iff.Cond, assign); known {
+											want := pred.Succs[0]
+											if !cv {
+												want = pred.Succs[1]
+											}
+											if want != y.Block() {
+												continue
+											}
+										}
+									}
+									srcs(e, seen)
+								}
+							case *ssa.Const:
+								if y.Value == nil {
+									zero = true
+								}
+							}
+						}
+						srcs(a, map[ssa.Value]bool{})
+						key := c.key(mainFn, fmt.Sprintf("→%s[arg%d]:-v2=%s,-git-diff-driver=%s", sf.Name(), i, v, g))
+						r.Check(!zero, rule, key, c.w.Pos(call.Pos()),
+							"the options handed on are the ones parsed from the flags",
+							fmt.Sprintf("with -v2=%s -git-diff-driver=%s the options handed to %s are the zero value, not what the flags say (-set, -mset, -setkeys, -precision are ignored)", v, g, sf.Name()))
+					}
+				}
+			}
+		}
 	}
 }
